@@ -19,8 +19,9 @@ pub mod c16;
 pub mod c17;
 pub mod c18;
 pub mod c19;
+pub mod c20;
 
-pub const ALL: &[&str] = &["C01", "C03", "C04", "C06", "C07", "C08", "C09", "C10", "C11", "C12", "C13", "C14", "C15", "C16", "C17", "C18", "C19"];
+pub const ALL: &[&str] = &["C01", "C03", "C04", "C06", "C07", "C08", "C09", "C10", "C11", "C12", "C13", "C14", "C15", "C16", "C17", "C18", "C19", "C20"];
 
 pub fn run(c: &Ctx) -> bool {
     match c.prop.as_str() {
@@ -41,6 +42,7 @@ pub fn run(c: &Ctx) -> bool {
         "C17" => c17::run(c),
         "C18" => c18::run(c),
         "C19" => c19::run(c),
+        "C20" => c20::run(c),
         _ => return false,
     }
     true
@@ -65,6 +67,7 @@ pub fn replay(prop: &str, kind: &str, case: &Value) -> Option<CaseResult> {
         "C17" => c17::replay(kind, case),
         "C18" => c18::replay(kind, case),
         "C19" => c19::replay(kind, case),
+        "C20" => c20::replay(kind, case),
         _ => None,
     }
 }
